@@ -145,6 +145,16 @@ CHECKS['C19'] = dict(
          'not claimed; str() models what configparser stores.',
     design='DESIGN.md section 2 C19')
 
+CHECKS['C13'] = dict(
+    technique='bounded symbolic execution (z3, own executor) of the real RepeatingEngine.run / CreateMonitor loop as one history; environment events at every switch point are solver decisions',
+    text='The real closures of RepeatingEngine.run are driven by the real monitor loop with threads, clock, timers and tasks replaced by a '
+         'deterministic world: at every sleep / task wait the solver chooses whether new producer output appears, the producers-finished '
+         'notification arrives, an external kill happens or a due timer fires, and each task\'s duration and outcome. Oracles: no execution before '
+         'output, an execution after the last output before stopping, stop within retries+2 attempts but not before a success or exhausted retries, '
+         'final exit reason. Path-budgeted (not exhaustive) at 8 (thorough 11) switch points.',
+    note='delivery of the notification by ComponentState.stageIn (rx) is assumed exactly-once; fake clock; performance book-keeping stubbed.',
+    design='DESIGN.md section 2 C13')
+
 NOT_APPLICABLE = {
     'C07': 'round trip through the real file system, PyYAML (C) and Experiment construction: nothing on the path can be made symbolic; the technique would degenerate to example testing',
     'C15': 'quantifies over processes with different hash seeds / directory listing orders, which are not values inside one symbolic execution',
